@@ -512,7 +512,13 @@ func (b *Builder) Branch() {
 	in.Label = l
 	b.emit(in)
 	k := rapid.IntRange(1, 4).Draw(b.t, "shadowlen")
-	if known && taken && b.P.Hostile && gadget == 0 && rapid.IntRange(0, 11).Draw(b.t, "longshadow") == 0 {
+	if gadget == 0 && rapid.IntRange(0, 11).Draw(b.t, "tonext") == 0 {
+		// the target is the next instruction: taken or not, the path is the same
+		// and nothing may be squashed or rolled back
+		k = 0
+		b.Meta["branch_to_next"]++
+	}
+	if k > 0 && known && taken && b.P.Hostile && gadget == 0 && rapid.IntRange(0, 11).Draw(b.t, "longshadow") == 0 {
 		// a long shadow rewriting one register more often than the rename table
 		// has slots
 		r := b.dest("rd")
